@@ -206,9 +206,15 @@ Section Converters.
   Qed.
 
   Lemma costs_convert_math_attach_like kids c : kids_ok kids -> costs (convert_math_attach_like swidth kids c) (sumN W kids).
-  Proof. intros Hk. unfold convert_math_attach_like. flow_conv Hk. Qed.
+  Proof.
+    intros Hk. unfold convert_math_attach_like, math_operand_req. apply costs_flow_like; intros c' b Hin.
+    destruct (is_code_mode (c_mode c')); branches; leafcost Hk.
+  Qed.
   Lemma costs_convert_math_frac kids c : kids_ok kids -> costs (convert_math_frac swidth kids c) (sumN W kids).
-  Proof. intros Hk. unfold convert_math_frac. flow_conv Hk. Qed.
+  Proof.
+    intros Hk. unfold convert_math_frac, math_operand_req. apply costs_flow_like; intros c' b Hin.
+    destruct (is_code_mode (c_mode c')); branches; leafcost Hk.
+  Qed.
 
   Lemma costs_convert_named kids c : kids_ok kids -> costs (convert_named swidth kids c) (sumN W kids).
   Proof. intros Hk. unfold convert_named. flow_iter_conv Hk. Qed.
